@@ -365,7 +365,9 @@ func mergeBlocks(closeCh <-chan struct{}, bw *blockWriter, br *blockReader, conf
 		tmpBlock2.reset()
 		tmpBlock2.append(tmpBlock, l)
 		bw.mustWriteBlock(tmpBlock.bm.seriesID, &tmpBlock2.block)
-		releaseDecoder()
+		// Do not release the decoder here: pendingBlock now holds the rows past
+		// maxBlockLength and their string / binary / array values still alias the
+		// decoder's buffer. It is released once the pending block is written.
 	}
 	if err := br.error(); err != nil {
 		return nil, nil, fmt.Errorf("cannot read block to merge: %w", err)
